@@ -16,4 +16,5 @@ INVARIANT Inv_C06_Inputs
 INVARIANT Inv_C01_C05_Call
 INVARIANT Inv_C17_Traceback
 PROPERTY ExactDiscard
+PROPERTY InputsKept
 CHECK_DEADLOCK FALSE
